@@ -86,9 +86,11 @@ PermsOf(S) == IF S = {} THEN {<<>>} ELSE UNION { { <<x>> \o p : p \in PermsOf(S 
 AllBatches(pool) == UNION { PermsOf(S) : S \in { T \in SUBSET pool : Cardinality(T) >= 2 } }
 Pool3 == {"big1", "small1", "small2"}
 Pool4 == {"big1", "big2", "small1", "small2"}
-Batches3 == AllBatches(Pool3)
+\* a second pool with files of another FORMAT: two SAF files (one with a NORTH_ROT header line, one without) and a miniSEED file
+PoolS == {"saf1", "saf2", "small1"}
+Batches3 == AllBatches(Pool3) \cup AllBatches(PoolS)
 Batches4 == AllBatches(Pool4)
 OptsAll == { <<"lognormal", "lognormal">>, <<"normal", "lognormal">>, <<"lognormal", "normal">>, <<"normal", "normal">> }
 OptsDefault == { <<"lognormal", "lognormal">> }
-NeedDef == [f \in {"big1", "big2", "small1", "small2", "small3"} |-> IF f \in {"big1", "big2"} THEN 2 ELSE 1]
+NeedDef == [f \in {"big1", "big2", "small1", "small2", "small3", "saf1", "saf2"} |-> IF f \in {"big1", "big2"} THEN 2 ELSE 1]
 =============================================================================
